@@ -237,14 +237,53 @@ func runParse(r *kit.Run, thorough bool) {
 	// range boundaries, leading zeros, signs and junk (most token strings above
 	// die at the first separator test; these all reach the number handling)
 	numerals := []string{"", "0", "1", "7", "00", "007", "10", "65535", "65536", "065535", "1099511627775", "1099511627776",
-		"01099511627775", "9223372036854775807", "9223372036854775808", "+1", "-1", "-0", "-", "x", "1x", " 1", "1 ", "0x10", "1e3", "1_0", "\u0661"}
-	kinds := append(append([]string{}, allKinds...), "nod", "nodes", "Node", "NODE", " node", "node ", "", "unknown", "element", "feature", "object")
+		"01099511627775", "9223372036854775807", "9223372036854775808", "+1", "-1", "-0", "-", "x", "1x", " 1", "1 ", "0x10", "1e3", "1_0", "\u0661",
+		// a dash that is not the whole version part, other white space and control
+		// bytes, non-ASCII digits, very long numerals, other number syntaxes
+		"-x", "--", "- ", "1-", "\t1", "1\t", "1\n", "1\r\n", "1\x00", "\uff11", "1\u00a0",
+		"0000000000000000000000001", "00000000000000000000065535", "123456789012345678901234567890",
+		"1.0", "1.", "1,0", "0b1", "0o7", "١٢"}
+	kinds := append(append([]string{}, allKinds...), "nod", "nodes", "Node", "NODE", " node", "node ", "", "unknown", "element", "feature", "object",
+		"nod\u00e9", "\uff4eode", "node\x00", "\tnode", "node\n", "n", "w", "r", "nodeway", "node,way", "*", "%s", "osm.node", "way\u200b")
 	var structured []string
 	for _, k := range kinds {
 		for _, a := range numerals {
 			structured = append(structured, k+"/"+a)
 			for _, b := range numerals {
 				structured = append(structured, k+"/"+a+":"+b)
+			}
+		}
+	}
+	// three fields after the kind: kind "/" a sep b sep c over both separators (a
+	// text whose first fields are well formed but which goes on: second colon,
+	// second slash). Token strings reach at most "kind/a:b" + one token.
+	small := []string{"", "0", "1", "7", "-", "x", "65535"}
+	for _, k := range []string{"node", "relation", "changeset", "bounds", "nod"} {
+		for _, a := range small {
+			for _, b := range small {
+				for _, c := range small {
+					for _, seps := range [][2]string{{":", ":"}, {":", "/"}, {"/", ":"}, {"/", "/"}} {
+						structured = append(structured, k+"/"+a+seps[0]+b+seps[1]+c)
+					}
+				}
+			}
+		}
+	}
+	// affixes around well-formed texts (canonical and not), and texts with other
+	// characters in the place of the separators
+	wellFormed := []string{"node/1:1", "way/7:-", "relation/65535:65535", "node/1099511627775:65535", "changeset/1:-", "user/7", "note/0:-", "bounds/0:-",
+		"node/1", "way/0", "relation/7:0", "node/0:-"}
+	affixes := []string{" ", "\t", "\n", "\r\n", "\x00", "\u00a0", "\ufeff", "x", "/", ":", "-", "+", "0", "1", ".", ",", ";", "#", "?", "node/", "/1", ":1", "\"", "'", "(", ")"}
+	for _, w := range wellFormed {
+		for _, a := range affixes {
+			structured = append(structured, a+w, w+a, a+w+a)
+		}
+		structured = append(structured, w+w, w+" "+w, w+","+w, w+"\n"+w)
+	}
+	for _, sep1 := range []string{"/", "\\", "\uff0f", "\u2215", ":", " ", "", "|", "-", ".", "//", "/ ", " /", "/\n"} {
+		for _, sep2 := range []string{":", "\uff1a", ";", ".", ",", "@", "v", "#", "/", " ", "", "::", ": ", " :", "-", ":-", "_"} {
+			for _, k := range []string{"node", "changeset"} {
+				structured = append(structured, k+sep1+"1"+sep2+"2", k+sep1+"1"+sep2, k+sep1+"1"+sep2+"-")
 			}
 		}
 	}
